@@ -46,7 +46,13 @@ pub fn gen_library(r: &mut Rng, with_known_features: bool) -> Vec<(String, Strin
             // (root notes only: with the mark a leading block reference is an inline link, and inline links of notes in
             // sub-directories are finding D12)
             if r.chance(1, 12) && !k.contains('/') {
-                text = format!("\u{feff}{}", text);
+                // … unless the mark changes what the first line is (`5) item` is no list item behind it: the lines that
+                // follow become one multi-line paragraph, outside the class of texts generated here — finding D33)
+                let marked = format!("\u{feff}{}", text);
+                let shape = |t: &str| -> Vec<(usize, Vec<String>, String)> { md::read(t, &crate::oracle::md::dir_of(k)).links.iter().map(|l| (l.line, l.ctx.clone(), l.holder.clone())).collect() };
+                if with_known_features || shape(&marked) == shape(&text) {
+                    text = marked;
+                }
             }
             (k.clone(), text)
         })
